@@ -1417,6 +1417,20 @@ package main
 //@   modifies inferred
 //@   ensures [C20] id_topic_tags_kept: r != nil && r.Meta != nil && r.Meta.Id == meta.Id && r.Meta.Topic == meta.Topic && ref(r.Meta.Tags) == ref(meta.Tags) && len(r.Meta.Tags) == len(meta.Tags)
 
+// (reply side of the same: the deleted ranges listed in a {meta} or {pres} keep both ends and their number)
+//@ func pbDelQuerySerialize(in []MsgDelRange) (out []*pbx.SeqRange)
+//@   modifies nothing
+//@   ensures [C20] same_length: len(out) == len(in)
+//@   loop 1
+//@     invariant [C20] so_far: 0 <= #idx && #idx <= len(in) && len(out) == len(in)
+//@     iterates [C20] range_kept: out[prev(#idx)] != nil && int(out[prev(#idx)].Low) == in[prev(#idx)].LowId && int(out[prev(#idx)].Hi) == in[prev(#idx)].HiId
+//@   nopanic
+//@   safe
+//@ func pbDelValuesSerialize(in *MsgDelValues) (res *pbx.DelValues)
+//@   modifies nothing
+//@   ensures [C20] del_id_kept: in != nil ==> res != nil && int(res.DelId) == in.DelId && len(res.DelSeq) == len(in.DelSeq)
+//@   ensures [C20] absent_stays_absent: in == nil ==> res == nil
+
 // C20: a presence notice keeps its actor and its target apart on the wire.
 //@ func pbServPresSerialize(pres *MsgServerPres) (r *pbx.ServerMsg_Pres)
 //@   requires [C20] pres != nil
